@@ -245,6 +245,29 @@ func TestVerifC20Proxy(t *testing.T) {
 				}
 			}()
 		}
+		// ... and keeps polling the broker, as Start()'s loop does while the periodic measurement runs beside it
+		pollSrv := httptest.NewServer(http.HandlerFunc(func(w http.ResponseWriter, rq *http.Request) {
+			w.Write([]byte(`not a poll response`))
+		}))
+		defer pollSrv.Close()
+		if tokens == nil {
+			tokens = newTokens(0)
+		}
+		if ps, err := newSignalingServer(pollSrv.URL, false); err == nil {
+			readers.Add(1)
+			go func() {
+				defer readers.Done()
+				for {
+					select {
+					case <-stop:
+						return
+					default:
+						ps.pollOffer("sid", "standalone", "", make(chan struct{}))
+						time.Sleep(2 * time.Millisecond)
+					}
+				}
+			}()
+		}
 		sf := &SnowflakeProxy{}
 		for k := 0; k < r.N(2, 6); k++ {
 			currentNATTypeAccess.Lock()
